@@ -85,6 +85,16 @@ def miri_engine(i, deep):
 def run(tier, seed, drv):
     t0 = time.time()
     rep = {"violations": [], "violations_total": 0, "notes": [], "machinery_errors": [], "samples": [], "nontrivial_samples": []}
+    # the interpreter build of the harness starts right away, next to the native builds (separate target directory)
+    import threading, sys
+    deep = tier == "thorough"
+    env = dict(os.environ, CARGO_NET_OFFLINE="true", CARGO_TARGET_DIR=os.path.join(ROOT, "target", "miri"), MIRIFLAGS="-Zmiri-disable-isolation -Zmiri-ignore-leaks -Zmiri-symbolic-alignment-check")
+    mb = {}
+
+    def miri_build(feat):
+        mb["b"] = subprocess.run(["cargo", "+nightly", "miri", "run", "--offline", "-q", "-p", "rt"] + feat + ["--", "C01", "--tier", "miri", "--out", "/dev/null", "--engines", "999"], cwd=os.path.join(ROOT, "harness"), env=env, stdout=subprocess.PIPE, stderr=subprocess.PIPE, text=True, errors="replace")
+    mbt = threading.Thread(target=miri_build, args=([],))
+    mbt.start()
     # ---- (1) compile-time battery
     drivers = ctfe_stage(rep)
     # ---- (2) native oracle stage
@@ -93,12 +103,33 @@ def run(tier, seed, drv):
     if drv["rt_build"]["excluded"]:
         rep["notes"].append("engine modules left out of this run because they do not build against this tree (a rejected program cannot be undefined behaviour; their own properties' checks judge the rejection): " + ", ".join(drv["rt_build"]["excluded"]) + " | " + " | ".join(drv["rt_build"]["errors"][:4]))
         rep.setdefault("caps_hit", []).append("engine modules not compiled: " + ",".join(drv["rt_build"]["excluded"]))
-    rt = drv["run_rt"]("C01", tier, 3 * 3600)
+    # the native stage runs while the interpreter stage is busy (quick tier: keeps the check near a minute)
+    native = {}
+
+    def native_stage():
+        try:
+            native["rt"] = drv["run_rt"]("C01", tier, 3 * 3600)
+        except SystemExit as e:  # machinery() inside run_rt
+            native["exit"] = e.code
+        except BaseException as e:  # noqa
+            native["exc"] = e
+    nth = threading.Thread(target=native_stage)
+    nth.start()
+
+    def native_result():
+        nth.join()
+        if "exit" in native:
+            sys.exit(native["exit"])
+        if "exc" in native:
+            raise native["exc"]
+        return native["rt"]
     # ---- (3) Miri: first make sure the interpreter build exists (one build, then parallel runs)
-    deep = tier == "thorough"
-    env = dict(os.environ, CARGO_NET_OFFLINE="true", CARGO_TARGET_DIR=os.path.join(ROOT, "target", "miri"), MIRIFLAGS="-Zmiri-disable-isolation -Zmiri-ignore-leaks -Zmiri-symbolic-alignment-check")
-    b = subprocess.run(["cargo", "+nightly", "miri", "run", "--offline", "-q", "-p", "rt"] + FEAT + ["--", "C01", "--tier", "miri", "--out", "/dev/null", "--engines", "999"], cwd=os.path.join(ROOT, "harness"), env=env, stdout=subprocess.PIPE, stderr=subprocess.PIPE, text=True, errors="replace")
+    mbt.join()
+    if FEAT:
+        miri_build(list(FEAT))  # some engine modules do not build against this tree: interpreter build without them
+    b = mb["b"]
     if b.returncode != 0:
+        nth.join()
         rep["machinery_errors"].append("cargo miri could not build/run the harness: " + b.stderr[-1500:])
         return rep
     n_eng = N_ENGINES + (3 if deep else 0)
@@ -166,6 +197,7 @@ def run(tier, seed, drv):
                     elif rc != 0:
                         rep["machinery_errors"].append(f"Miri on generated crate {prefix}_{si} failed (rc={rc}): {err[-500:]}")
     # ---- merge
+    rt = native_result()
     for v in rt.get("violations", []):
         v = dict(v)
         v["class"] = "oracle"
